@@ -71,7 +71,7 @@ claim("C08",
       "names) and a budget of base names FREE (no distinctness beyond SQL validity) is compared with the twin run whose local names are "
       "fresh constants; z3 decides over all namings that sources, targets, intermediates and end-to-end column pairs are equal; "
       "a second family flips the optional AS. Counterexamples (a naming) are rendered to two SQL texts and replayed on the unmodified "
-      "library. Bounded: <=5 (quick) / <=7 (thorough) free names per instance, 2-char bodies (quick).",
+      "library. Bounded: <=5 (quick) / <=6 (thorough) free names per instance, 2-char bodies (quick).",
       TRUST + "; parser boundary stubbed (split, sqlfluff parse); one open finding (cross-scope alias capture) reported as KNOWN-FINDING; "
       "three defects found here were repaired in /repo (alias precedence, mixed comma join, subquery joins leaking into the outer scope)",
       "DESIGN.md section 4 (C08)")
@@ -91,7 +91,7 @@ claim("C02",
       "Same harness as C01 comparing (source column -> target column) pairs with the oracle's dataflow, in two families: table-ish names "
       "free (qualifier/alias/scope resolution under coincidences) and column names + column aliases free (naming by list/alias/own name, "
       "resolution through derived tables and CTEs by name, positional mapping through set operations, 16 expression forms); a third family frees the statement-local names first, a fourth double-quotes every base table (case kept, un-aliased quoted tables as qualifiers). "
-      "Bounded as C01; <=5/7 free names per instance.",
+      "Bounded as C01; <=5/6 free names per instance.",
       TRUST + "; two open findings reported as KNOWN-FINDING (cross-scope alias capture, literal in first UNION branch); three defects found here were repaired in /repo "
       "(one-node paths of CREATE TABLE, quoted source column folded, default alias of a quoted table folded); un-aliased expression display names are not compared; self-insert assumed away for pairs",
       "DESIGN.md section 3 and 4 (C02)")
